@@ -33,7 +33,7 @@ class C11(Check):
     SHRINK = False
     RULE = ('seeded random supported specifications for each of the four monitor kinds (bounded future operators whose window exceeds the trace, variables used '
             'several times); (a) the arguments of every evaluate()/update() are deep-compared before/after; (b) offline objects evaluate the same data twice; '
-            '(c) two or three objects are driven with interleaved calls and compared with each object driven alone; (d) every case is re-run in separate '
+            '(c) two or three objects (40% of the discrete ones with a twin that has the same text under another default time unit) are driven with interleaved calls and compared with each object driven alone; (d) every case is re-run in separate '
             'interpreters under PYTHONHASHSEED 0..3 and the results compared byte for byte; non-trivial = formula with a temporal operator; distinct by (programs, schedule)')
 
     def gen_cases(self, rng, tier):
@@ -62,6 +62,11 @@ class C11(Check):
                 cols = fml.gen_trace(rng, nv, n)
                 objs.append({'monitor': kind, 'vars': fml.VARS[:nv], 'spec': 'out = ' + fml.to_text(f), 'calls': calls_for(kind, f, cols, list(range(n)), n),
                              '_f': fml.to_sx(f)})
+                if kind.startswith('discrete') and (fml.ops(f) & fml.TUN) and not (fml.ops(f) & fml.TBIN) and rng.random() < 0.5:
+                    # a twin object: the same text (unit-less bounds) under another default unit, i.e. other bounds in samples
+                    txt = 'out = ' + fml.to_text(f, lambda b, e: '[%d:%d]' % (b * 1000, e * 1000))
+                    objs[-1].update({'spec': txt, 'unit': 'ms', 'period': [1, 's', 0.1]})
+                    objs.append(dict(objs[-1], unit='s', calls=calls_for(kind, f, fml.gen_trace(rng, nv, n), list(range(n)), n)))
             sched = [(oi, ci) for oi, o in enumerate(objs) for ci in range(len(o['calls']))]
             # random interleaving that keeps each object's own call order
             order, ptr = [], [0] * len(objs)
@@ -83,6 +88,8 @@ class C11(Check):
 
     def judge(self, c, mlines, ires):
         inter = ires[0]
+        if any(isinstance(r.get('setup'), dict) and r['setup'].get('kind') == 'Timeout' for r in ires):
+            return 'dropped', None
         det = {'programs': [(o['monitor'], o['spec']) for o in c['objects']], 'schedule': c['schedule']}
         for k, r in enumerate(inter['calls']):
             if r.get('status') == 'ok' and r.get('args_unchanged') is False:
